@@ -1,6 +1,7 @@
 /- Line-protocol handler for the source-decomposition model of C03 (over Rat). -/
 import Lcapy.Model.CRat
 import Lcapy.Model.Decompose
+import Lcapy.Spec.Noise
 namespace Lcapy.Driver.C03
 open Lcapy Lcapy.Decompose
 
@@ -25,5 +26,18 @@ def handle (toks : List String) : Option String :=
         let ac := ",".intercalate (d.ac.map (fun p => s!"{ratToStr p.1}:{ratToStr p.2.1}:{ratToStr p.2.2}"))
         let tr := ",".intercalate (d.tr.map (fun p => s!"{p.1}:{ratToStr p.2}"))
         s!"dc={ratToStr d.dc} ac={ac} tr={tr}"
+  | "noise.power" :: rest => some <|
+      -- tokens: groups separated by `|`, each source `re:im:a`
+      let groups := (rest.foldr (fun t acc =>
+        if t = "|" then [] :: acc else match acc with | [] => [[t]] | h :: r => (t :: h) :: r) [[]])
+      let parseSrc (t : String) : Option ((Rat × Rat) × Rat) :=
+        match t.splitOn ":" with
+        | [re, im, a] => do
+            let re ← parseRat re; let im ← parseRat im; let a ← parseRat a
+            some ((re, im), a)
+        | _ => none
+      match groups.mapM (fun g => g.mapM parseSrc) with
+      | some gs => ratToStr (Lcapy.Noise.noisePower gs)
+      | none => "bad-op"
   | _ => none
 end Lcapy.Driver.C03
